@@ -73,6 +73,31 @@ def make_morton(name, consts, N="2"):
                 pre_includes=["stubs/numeric_size_t.h", "contracts/numeric.h", "stubs/pdep.h", "stubs/algorithm.h"])
 
 
+# ---------------------------------------------------------------- strided
+STRIDED = CORE + "backend/transformer/strided.hpp"
+ACCUM = (r"(?s)std::accumulate\s*\(\s*std::begin\((\w+)\)\s*,\s*std::end\(\1\)\s*,\s*(.*?),\s*std::multiplies\s*<\s*std::size_t\s*>\s*\(\)\s*\)",
+         r"verif_accumulate_mul(\1.m_data, DIMS_IN, \2)", 1, True)
+
+
+def make_strided(name, consts):
+    fns = []
+    fns.append(Fn("strided_at", STRIDED, ["struct strided", "struct non_owning_data_t"], "at",
+                  ret="OUT_VEC_PTR_T", ptypes=["IN_VEC_T"], vec_types=["IN_VEC_T"],
+                  method="const STRIDED_SELF_T *self", members=["m_sizes"], arrays=["m_sizes"],
+                  subst=COMMON_SUBST + [(r"m_storage\s*\.\s*at\s*\(\s*\{\s*(\w+)\s*\}\s*\)", r"backend_at(\1)", 1, True)],
+                  must={"R11_member": 1, "R1_cast": 1}))
+    fns.append(Fn("strided_alloc_size_copy", STRIDED, ["struct strided"], "make_strided_copy", kind="expr",
+                  expr_rx=r"std::accumulate\s*\(", ret="size_t", ptypes=["ND_SIZE_T"], pnames=["sizes"], subst=[ACCUM]))
+    fns.append(Fn("strided_alloc_size_ctor", STRIDED, ["struct strided", "struct owning_data_t"], "owning_data_t", kind="expr",
+                  params_hint=r"const\s+T\s*&", expr_in_header=True,
+                  expr_rx=r"std::accumulate\s*\(", ret="size_t", ptypes=["ND_SIZE_T"], pnames=["m_sizes"], subst=[ACCUM]))
+    fns.append(Fn("strided_alloc_size_conf", STRIDED, ["struct strided", "struct owning_data_t"], "owning_data_t", kind="expr",
+                  params_hint=r"configuration_t\s+conf", expr_in_header=True,
+                  expr_rx=r"std::accumulate\s*\(", ret="size_t", ptypes=["ND_SIZE_T"], pnames=["m_sizes"], subst=[ACCUM]))
+    return Unit(name, fns, "contracts/strided.h", "lemmas/strided.c",
+                stubs=["stubs/backend.h"], pre_includes=["stubs/algorithm.h"])
+
+
 def get_unit(name, consts=None):
     """name is 'base' or 'base@k=v,k=v' for units whose extraction depends on template arguments."""
     if name in UNITS:
@@ -84,3 +109,4 @@ def get_unit(name, consts=None):
 
 FACTORIES = {}
 FACTORIES["morton"] = make_morton
+FACTORIES["strided"] = make_strided
